@@ -48,15 +48,54 @@ func exprUses(e asm.Expr, names map[string]bool) bool {
 	return false
 }
 
-// labelledNestedFirst lists (label, counter) of blocks whose body starts with a nested FOR.
-func labelledNestedFirst(items []asm.Item) [][2]string {
-	var out [][2]string
+// labelledNestedFirst lists (label, counter, mustWork) of blocks whose body starts with a nested FOR.
+// mustWork is "1" when the shape is one gmars handles (the block is repeated exactly once and the
+// label is only referenced inside the first nested block): a failure there is NOT the known finding.
+func labelledNestedFirst(items []asm.Item) [][3]string {
+	var out [][3]string
+	var refsIn func(items []asm.Item, l string) bool
+	refsIn = func(items []asm.Item, l string) bool {
+		names := map[string]bool{l: true}
+		for _, it := range items {
+			switch x := it.(type) {
+			case *asm.Instr:
+				if exprUses(x.A.E, names) || (x.B != nil && exprUses(x.B.E, names)) {
+					return true
+				}
+			case *asm.For:
+				if exprUses(x.Count, names) || refsIn(x.Body, l) {
+					return true
+				}
+			case *asm.Org:
+				if exprUses(x.E, names) {
+					return true
+				}
+			}
+		}
+		return false
+	}
 	for _, it := range items {
 		if f, ok := it.(*asm.For); ok {
 			if len(f.Labels) > 0 && len(f.Body) > 0 {
 				if _, ok := f.Body[0].(*asm.For); ok {
 					for _, l := range f.Labels {
-						out = append(out, [2]string{l, f.Counter})
+						// gmars copes iff, at every level where the (renamed) label ends up in front of a
+						// nested-first block, that block is repeated exactly once and the label is only
+						// referenced inside its first nested block
+						var fine func(b *asm.For) bool
+						fine = func(b *asm.For) bool {
+							inner, nested := b.Body[0].(*asm.For)
+							if !nested {
+								return true
+							}
+							c, isLit := b.Count.(asm.Lit)
+							return isLit && c.V == 1 && !refsIn(b.Body[1:], l) && len(inner.Body) > 0 && inner.Counter != "" && fine(inner)
+						}
+						must := "0"
+						if fine(f) {
+							must = "1"
+						}
+						out = append(out, [3]string{l, f.Counter, must})
 					}
 				}
 			}
@@ -258,7 +297,7 @@ func runC08(c *Ctx) {
 			for _, lc := range labelledNestedFirst(p.Items) {
 				msg := err.Error()
 				k := strings.Index(msg, "symbol '__for_")
-				if k >= 0 && strings.HasSuffix(msg, fmt.Sprintf("_%s_%s' undefined", rn(lc[1]), rn(lc[0]))) {
+				if lc[2] == "0" && k >= 0 && strings.HasSuffix(msg, fmt.Sprintf("_%s_%s' undefined", rn(lc[1]), rn(lc[0]))) {
 					c.KnownHit("C08:block-label-before-nested-for:symbol-undefined", fmt.Sprintf("block label %q stands before a block whose body starts with a nested FOR; the program is rejected with %q", rn(lc[0]), err), cs(""))
 					c.Inc("known_finding_label_before_nested_for")
 					return
